@@ -159,7 +159,11 @@ class ConcPart(Part):
             self.name = name
 
     def gen(self, seed, tier):
-        prog = gen.gen_conc_program(seed, self.family, tier, mp=self.mp)
+        mp = self.mp
+        if mp == "mixed":
+            import random
+            mp = random.Random("cmp:%d" % seed).random() < 0.2
+        prog = gen.gen_conc_program(seed, self.family, tier, mp=mp)
         if self.fault:
             import random
             r = random.Random("cfault:%d" % seed)
